@@ -423,10 +423,12 @@ func buildC07src(tier string, fromCamera bool) sim.Scenario {
 						if hevc && tmpl.Channel == rtp.ChannelVideo {
 							at = 14
 						}
-						if tmpl == tmplV && tp.Bool() { // the size field of the second unit
-							first := int(d[at])<<8 | int(d[at+1])
-							if at+2+first+2 < len(d) {
-								at += 2 + first
+						if tmpl == tmplV { // the size field of the first, second or third unit (parameter sets, then the key-frame slice)
+							for hop := tp.Choose(3); hop > 0; hop-- {
+								sz := int(d[at])<<8 | int(d[at+1])
+								if at+2+sz+2 < len(d) {
+									at += 2 + sz
+								}
 							}
 						}
 						switch tp.Choose(4) {
